@@ -752,7 +752,14 @@ class Check(PropertyCheck):
                   "HTTP/2 client/server runs are tied to the model per stream exactly like HTTP/1 (outputs, final state, "
                   "adm=1, settled).  HTTP/3: Http3Server/Http3Client are driven offline by an HTTP/3 client and server "
                   "exchanging QUIC stream events with them; the same skeletons, faults and policies are run, judged by the "
-                  "oracle and tied to the model per stream like HTTP/2 (`_http3` theorems).")
+                  "oracle and tied to the model per stream like HTTP/2 (`_http3` theorems).  COUNT: there is ONE emitter model "
+                  "(`enabled`/`Admissible`, Model/C03_Emit.lean) for the three protocols, so the six `_http2` and six `_http3` "
+                  "theorems are verbatim restatements of the `_http1` ones (same hypothesis `Admissible l t evs`, same conclusion, "
+                  "proof = the `_http1` theorem): C03 has 13 DISTINCT statements (6 under the grammar hypothesis `bad = false`, "
+                  "`grammar_holds`, 6 under `Admissible`), not 25; what is protocol-specific is the TIE (adm=1 is required of "
+                  "every real HTTP/1, HTTP/2 and HTTP/3 stream), not the proof.  The final line compared per stream now also "
+                  "carries `connect=` (the model's `isConnect`, the hypothesis of closed_implies_outcome) against the real "
+                  "flow's method.")
     level_note = ("trusted: Lean kernel; hand-written model (validated differentially, ~0 mismatches on >10^5 scripts); the "
                   "emitter model of Http1Server/Http1Client/HttpLayer is itself a hand-written abstraction, tied by checking "
                   "that every real per-stream event sequence is one it can produce (not by a proof about those classes); "
@@ -1059,7 +1066,7 @@ class Check(PropertyCheck):
             # after everything is closed and every hook completed: the model must agree that the stream is settled,
             # that no input fell outside its event grammar, and that nothing is pending
             end = (f"live={int(st['live'])} cs={st['cs']} ss={st['ss']} pt={int(ispt)} settled=1 bad=0 paused=0 "
-                   f"streamed={int(st['streamed_up'])} ws={int(st['websocket'])} adm=1")
+                   f"streamed={int(st['streamed_up'])} ws={int(st['websocket'])} connect={int(st['connect'])} adm=1")
             cur.append(self._norm_end(end, any("H:requestheaders" in c.split() for c in cur)))
             out.append(cur)
         return out
